@@ -79,6 +79,11 @@ pub fn logline(s: String) {
     }
 }
 
+pub fn count_creates() -> usize {
+    let g = CTL.lock().unwrap();
+    g.as_ref().map(|c| c.log.iter().filter(|l| l.contains(" create ")).count()).unwrap_or(0)
+}
+
 pub fn add_fault(kind: &str, skip: u64) {
     let mut g = CTL.lock().unwrap();
     if let Some(c) = g.as_mut() {
